@@ -180,6 +180,24 @@ def slice_(seq: SeqV, lo, hi):
     return SeqV(seq.kind, ek, arr=narr, length=newlen)
 
 
+def subseq(seq: SeqV, lo, hi):
+    """seq[lo:hi] for bounds already known to satisfy 0 <= lo <= hi <= len (no clamping: canonical terms)."""
+    if isinstance(lo, int) and isinstance(hi, int) and seq.items is not None:
+        return SeqV(seq.kind, seq.elem, items=seq.items[lo:hi])
+    arr, nt, ek = as_array(seq)
+    lot = z3.simplify(to_term(lo, "int"))
+    hit = z3.simplify(to_term(hi, "int"))
+    newlen = z3.simplify(hit - lot)
+    if z3.is_int_value(newlen) and newlen.as_long() <= SMALL:
+        items = [mk(ek, z3.Select(arr, z3.simplify(lot + k))) if ek != "float" else Sym("float", z3.Select(arr, z3.simplify(lot + k)))
+                 for k in range(newlen.as_long())]
+        return SeqV(seq.kind, ek, items=items)
+    i = z3.Int("sl!i")
+    if z3.is_int_value(lot) and lot.as_long() == 0:
+        return SeqV(seq.kind, ek, arr=arr, length=newlen)
+    return SeqV(seq.kind, ek, arr=z3.Lambda([i], z3.Select(arr, i + lot)), length=newlen)
+
+
 def remove_range(seq: SeqV, lo2, hi2):
     """seq with the (already clamped) range [lo2, hi2) removed."""
     if isinstance(lo2, int) and isinstance(hi2, int) and seq.items is not None:
@@ -218,7 +236,8 @@ def concat(a: SeqV, b: SeqV, kind=None):
         return SeqV(kind, ak, arr=arr, length=z3.simplify(an + bn))
     i = z3.Int("cc!i")
     arr = z3.Lambda([i], z3.If(i < an, z3.Select(aa, i), z3.Select(ba, i - an)))
-    return SeqV(kind, ak, arr=arr, length=z3.simplify(an + bn))
+    peel = (list(a.items), b) if a.items is not None and len(a.items) <= SMALL else None
+    return SeqV(kind, ak, arr=arr, length=z3.simplify(an + bn), peel=peel)
 
 
 def append(seq: SeqV, v):
